@@ -771,8 +771,9 @@ func (em *emitter) emitBuiltin(call *ast.Call, reg int8, dstType reflect.Type) {
 		em.fb.emitClose(chann, call.Pos())
 	case "complex":
 		floatType := em.typ(args[0])
-		r := em.emitExpr(args[0], floatType)
-		i := em.emitExpr(args[1], floatType)
+		// The Complex instruction reads its operands from direct registers.
+		r := em.directRegister(em.emitExpr(args[0], floatType), floatType)
+		i := em.directRegister(em.emitExpr(args[1], floatType), floatType)
 		complexType := complex128Type
 		if floatType.Kind() == reflect.Float32 {
 			complexType = complex64Type
